@@ -84,7 +84,7 @@ def main():
         ],
         "checks": checks,
         "not_applicable": na,
-        "notes": "Static analysis only (DESIGN.md). fix: commits in /repo: 355fdd1 bc9734d abb2d79 8d0de41 004abe0 (see known_findings.json).",
+        "notes": "Static analysis only (DESIGN.md). fix: commits in /repo: 355fdd1 bc9734d abb2d79 8d0de41 004abe0 78ca7dc (see known_findings.json).",
     }
     with open(os.path.join(VERIF, "MANIFEST.json"), "w") as fh:
         json.dump(man, fh, indent=1)
